@@ -26,6 +26,8 @@ func expandC16(_ *testing.T, seed uint64, tier string) []*core.Plan {
 	p.SetKnob("chunk", r.Pick(0, 0, -1, 1))
 	p.SetKnob("queue", r.Pick(100, 100, 30))
 	p.SetKnob("subqos", r.Pick(1, 2, 2))
+	p.Yield = r.Pick(0, 0, 3, 8)
+	p.SetKnob("park", r.Pick(0, 0, 3, 6))
 	n := r.Range(1, 20*win)
 	if tier != "thorough" && n > 60 {
 		n = r.Range(10, 60)
@@ -91,6 +93,7 @@ func runC16(t *testing.T, p *core.Plan) *core.Result {
 	}
 	cfg.ParPublishes = 64
 	cfg.TokenTimeout = 2 * time.Second
+	cfg.ParkN = p.Knob("park", 0)
 	win := cfg.Inflight
 	q0 := p.Knob("qos0only", 0) == 1
 	policy := p.Knob("policy", 0)
